@@ -439,6 +439,8 @@ def run_history(st: Stats, case):
         b_files["src/bmod3.f90"] = B3_SRC.format(refs3=reftext3)
         b_files["src/bmod8.f90"] = B8_SRC
         b_files["src/bmod9.f90"] = B9_SRC
+        b_files["src/bdata9.f90"] = ("block data bd9\n  !! block data that keeps an object of the library's type in a common block\n  use alib, only: shape_t\n"
+                                     "  type(shape_t) :: origin9\n  !! of the library's type\n  common /geom9/ origin9\nend block data bd9\n")
         if clash:
             b_files["src/own.f90"] = CLASH_SRC[clash]
         externals = {"alib": ext, "alib_again": ext} if hist == "two-names" else {"alib": ext}
@@ -498,7 +500,7 @@ def run_history(st: Stats, case):
         if damage is None:
             # which of A's same-named entities a page of B links to: the one of the module that page's scope uses
             WANT = {"module/bmod7.html": ("alib6", "scale_it"), "module/bmod5.html": ("alib", "shape_t"), "type/b5_t.html": ("alib", "shape_t"), "module/bmod3.html": ("alib3", "shape_t"), "module/bmod.html": ("alib", "shape_t"), "interface/cb.html": ("alib", "shape_t"), "interface/gcb.html": ("alib", "shape_t"),
-                    "interface/acb.html": ("alib", "shape_t"), "interface/mk.html": ("alib", "shape_t")}
+                    "interface/acb.html": ("alib", "shape_t"), "interface/mk.html": ("alib", "shape_t"), "blockdata/bd9.html": ("alib", "shape_t")}
             if clash == "module":
                 WANT = {"module/bmod3.html": ("alib3", "shape_t")}
             got_pages = {}
